@@ -509,7 +509,7 @@ var toUnicodeTmplNew = template.Must(template.New("cmap").Funcs(template.FuncMap
 	"B": func(x []byte) string {
 		return fmt.Sprintf("<%02x>", x)
 	},
-	"SingleChunks": chunks[ToUnicodeSingle],
+	"SingleChunks":    chunks[ToUnicodeSingle],
 	"CodeSpaceChunks": chunks[charcode.Range],
 	"Single": func(s ToUnicodeSingle) string {
 		val := hexString(s.Value)
